@@ -449,7 +449,7 @@ pub fn run(ctx: &mut Ctx) {
         "translation probes are skipped when the user ranges of two accepted regions overlap (the statement assumes a unique containing region)".into(),
         "failed back-end update_memory() callbacks are not injected (application code is trusted)".into(),
     ];
-    let cases = ctx.tier.pick(1500u32, 40_000u32);
+    let cases = ctx.tier.pick(1500u32, 300_000u32);
     let strat = (any::<bool>(), proptest::collection::vec(8u8..=80, 1..=4), proptest::collection::vec(op_strategy(), 1..=12))
         .prop_map(|(rwlock, files, ops)| Hist { rwlock, files, ops });
     ctx.prop_check("histories", cases, strat, |ctx, h| run_hist(ctx, h));
